@@ -4,7 +4,8 @@ import sys, os, json, shutil, re
 out, i, pid = sys.argv[1], sys.argv[2], sys.argv[3]
 detected = [x for x in sys.argv[4].split(',') if x] if len(sys.argv) > 4 else []
 missed = [x for x in sys.argv[5].split(',') if x] if len(sys.argv) > 5 else []
-mid = f"{pid}-m{i}"
+wave = sys.argv[6] if len(sys.argv) > 6 else ""
+mid = f"{pid}-{wave}m{i}"
 d = f"/verif/seeded/{mid}"
 os.makedirs(d, exist_ok=True)
 shutil.copy(f"{out}/m{i}.patch.diff", f"{d}/patch.diff")
